@@ -26,7 +26,7 @@ EVID = os.environ.get('VPX_EVIDENCE_DIR') or os.path.join(ROOT, 'evidence')
 KF_FILE = os.path.join(ROOT, 'known_findings.json')
 
 
-ENGINE_IDENTITIES = ['concat_empty_split', 'concat_slices', 'sub_anchor']
+ENGINE_IDENTITIES = ['concat_empty_split', 'concat_slices', 'sub_anchor', 'dict_update_keeps_order']
 
 
 class Ob:
